@@ -4,6 +4,7 @@ package scen
 
 import (
 	"fmt"
+	"os"
 	"runtime"
 	"strings"
 	"sync"
@@ -71,6 +72,9 @@ func installKnobs(s *sim.Sim, k plan.Knobs) {
 		vipv6.MaxBatch = k.UDPMaxBatch
 	}
 	vipv6.Coalesce = time.Duration(k.UDPCoalesce) * time.Microsecond
+	if os.Getenv("SIM_GNET_DEBUG") != "" {
+		vgnet.Debug = func(kind, link string, n, a, b, c int) { s.Logf(kind, "%s n=%d inbound %d->%d left=%d", link, n, a, b, c) }
+	}
 	if k.GnetReadCap > 0 {
 		vgnet.ReadBufferCap = k.GnetReadCap
 	}
